@@ -58,6 +58,28 @@ def run(ctx):
             norms = [(bi, c) for bi, c in b.calls() if c['callee'].get('resolved') == norm.path]
             ok = len(sorts) == 1 and len(norms) >= 1
             msg = 'sort calls on the returned vector: %d, normalise calls: %d' % (len(sorts), len(norms))
+            helper_site = None
+            if len(sorts) == 1 and not [x for x in norms if _norm_target(b, x)[0] == vec]:
+                # the normalisation of the whole vector may live in a helper fn(&mut Vec<Joints>, &Joints)
+                helper_site = _normalise_helper_site(prog, b, vec, norm)
+            if helper_site is not None:
+                hbi, ht, hb, hinfo = helper_site
+                ctx.fn(hb)
+                sbb = sorts[0][0]
+                pref = strip(b.op_term(ht['args'][hinfo['ref_param'] - 1], (hbi, None)))
+                sref = strip(b.op_term(sorts[0][1]['args'][2], (sbb, None)))
+                order_ok = b.dominates(hbi, sbb) and not b.reaches(sbb, hbi) and b.dominates(sbb, fbb)
+                adds = [(bi, c) for bi, c in b.calls() if cname(callee_name(c)) in ('Vec::push', 'Extend::extend', 'Vec::insert', 'Vec::append', 'Vec::extend_from_slice')
+                        and _vec_local(b, c['args'][0]) == vec and (b.reaches(hbi, bi) or b.reaches(sbb, bi)) and bi != hbi]
+                ok = hinfo['rows_ok'] and hinfo['cols_ok'] and order_ok and not adds
+                msg = 'helper %s: every row=%s every joint=%s normalise-before-sort=%s no-later-additions=%s' % (hb.path.split('::')[-1], hinfo['rows_ok'], hinfo['cols_ok'], order_ok, not adds)
+                ctx.check(hinfo['same_j'], 'R04.2', m, hb.where(hinfo['site']), hb.path, 'each joint must be normalised against the previous value of the same joint',
+                          found=hinfo['found'], detail=hinfo['found'])
+                ctx.check(pref == sref, 'R04.5', m + '/same-reference', b.where(sbb), b.path,
+                          'normalisation and sorting must use the same reference vector', found='%s vs %s' % (show(pref, maxdepth=3), show(sref, maxdepth=3)))
+                _sentinel(ctx, b, m, sref)
+                ctx.check(ok, 'R04.1', key, b.where(fbb), b.path, 'the returned vector is not normalise -> sort -> filter: ' + msg, detail=msg)
+                continue
             if ok:
                 sbb = sorts[0][0]
                 ok = b.dominates(sbb, fbb)
@@ -68,8 +90,13 @@ def run(ctx):
                     x = strip(b.op_term(nt['args'][0], (nbb, None)))
                     p = strip(b.op_term(nt['args'][1], (nbb, None)))
                     _, rows_ok, j_idx = _norm_target(b, nb[0])
+                    zipped = isinstance(j_idx, tuple) and j_idx and j_idx[0] == 'zip'
+                    if zipped:
+                        # paired by zip: same joint by construction, all six joints; present the reference as `ref[j]`
+                        p = ('idx', j_idx[1], ('const', 'marker', 'zip', None))
+                        j_idx = ('const', 'marker', 'zip', None)
                     jr = util.range_of(util.loop_source(j_idx)) if j_idx is not None and util.loop_source(j_idx) is not None else None
-                    dom_ok = rows_ok and jr is not None and util.const_val(jr[0]) == 0 and util.const_val(jr[1]) == 6
+                    dom_ok = rows_ok and (zipped or (jr is not None and util.const_val(jr[0]) == 0 and util.const_val(jr[1]) == 6))
                     # the loop precedes the sort: the sort is not inside the loop and the loop header dominates it
                     order_ok = not b.reaches(sbb, nbb) and _loop_header_dominates(b, nbb, sbb)
                     # nothing is added to the vector after normalisation started
@@ -139,11 +166,91 @@ def _vec_local(b, op):
     return l
 
 
+def _normalise_helper_site(prog, b, vec, norm):
+    """(block, call, helper body, info) when b hands its solution vector `vec` by &mut to a crate-local helper that applies the
+    near-normaliser to every joint of every row against the same joint of a reference parameter."""
+    for bi, t in b.calls():
+        hb = prog.bodies.get(t['callee'].get('resolved')) if t['callee'].get('local') else None
+        if hb is None or hb.kind == 'Closure' or hb.path == norm.path:
+            continue
+        pos = [k for k, a in enumerate(t['args'], start=1) if a.get('k') in ('copy', 'move') and _vec_local(b, a) == vec]
+        if len(pos) != 1 or 'Vec<[f64; 6]>' not in hb.local_ty(pos[0]) or not hb.local_ty(pos[0]).lstrip().startswith('&mut'):
+            continue
+        sites = [(ci, ct) for ci, ct in hb.calls() if ct['callee'].get('resolved') == norm.path]
+        if len(sites) != 1:
+            continue
+        ci, ct = sites[0]
+        x = strip(hb.op_term(ct['args'][0], (ci, None)))
+        p = strip(hb.op_term(ct['args'][1], (ci, None)))
+        info = {'site': ci, 'rows_ok': False, 'cols_ok': False, 'same_j': False, 'ref_param': None, 'found': '%s vs %s' % (show(x, maxdepth=5), show(p, maxdepth=5))}
+
+        def rows_of(row):
+            """row is an element of the whole vector parameter: loop element of iter_mut() over it, or vec[s] for s in 0..len"""
+            src = util.loop_source(row)
+            if src is not None:
+                base, ad = util.iter_chain(src)
+                return util.is_param(base, pos[0]) and all(a in ('iter_mut', 'into_iter') for a in ad) and 'iter_mut' in ad
+            r = strip(row)
+            if isinstance(r, tuple) and r[0] == 'call' and cname(r[1]) == 'IndexMut::index_mut' and util.is_param(r[2], pos[0]):
+                s2 = util.loop_source(r[3])
+                rg = util.range_of(s2) if s2 is not None else None
+                return rg is not None and util.const_val(rg[0]) == 0 and not [a for a in rg[2] if a != 'into_iter'] and \
+                    isinstance(strip(rg[1]), tuple) and strip(rg[1])[0] == 'call' and cname(strip(rg[1])[1]).split('::')[-1] == 'len' and util.is_param(strip(rg[1])[2], pos[0])
+            return False
+        # form 1: for (angle, &near) in row.iter_mut().zip(previous.iter())
+        if isinstance(x, tuple) and x[0] == 'fld' and x[2] == '0' and isinstance(p, tuple) and p[0] == 'fld' and p[2] == '1' and strip(x[1]) == strip(p[1]):
+            zsrc = util.loop_source(x[1])
+            z = strip(zsrc) if zsrc is not None else None
+            while isinstance(z, tuple) and z[0] == 'call' and cname(z[1]).split('::')[-1] == 'into_iter':
+                z = strip(z[2])
+            if isinstance(z, tuple) and z[0] == 'call' and cname(z[1]) == 'Iterator::zip' and len(z) == 4:
+                lb, lad = util.iter_chain(z[2])
+                rb, rad = util.iter_chain(z[3])
+                rp = util.param_index(rb)
+                if all(a in ('iter_mut', 'into_iter') for a in lad) and all(a in ('iter', 'into_iter', 'copied', 'cloned') for a in rad) and rp is not None and rp != pos[0]:
+                    info.update(rows_ok=rows_of(lb), cols_ok=True, same_j=True, ref_param=rp)
+        # form 2: row[j] against previous[j], j in 0..6
+        elif isinstance(x, tuple) and x[0] == 'idx' and isinstance(p, tuple) and p[0] == 'idx':
+            jr = util.range_of(util.loop_source(x[2])) if util.loop_source(x[2]) is not None else None
+            rp = util.param_index(p[1])
+            row = strip(x[1])
+            while isinstance(row, tuple) and row[0] == 'mutb':
+                row = strip(row[2])
+            if rp is not None and rp != pos[0]:
+                info.update(rows_ok=rows_of(row), cols_ok=jr is not None and util.const_val(jr[0]) == 0 and util.const_val(jr[1]) == 6 and not [a for a in jr[2] if a != 'into_iter'],
+                            same_j=strip(x[2]) == strip(p[2]), ref_param=rp)
+        if info['ref_param'] is not None:
+            return bi, t, hb, info
+    return None
+
+
 def _norm_target(b, site):
     """(vec_local, row_domain_ok, j_term) of the element handed to the near-normaliser:
     `&mut vec[s][j]` with s in 0..vec.len(), or `&mut row[j]` with row from vec.iter_mut()."""
     bi, t = site
     term = strip(b.op_term(t['args'][0], (bi, None)))
+    if isinstance(term, tuple) and term[0] == 'fld' and term[2] == '0':
+        # for (angle, &near) in row.iter_mut().zip(reference.iter()): joint k of the row against joint k of the reference
+        p = strip(b.op_term(t['args'][1], (bi, None)))
+        zsrc = util.loop_source(term[1])
+        z = strip(zsrc) if zsrc is not None else None
+        while isinstance(z, tuple) and z[0] == 'call' and cname(z[1]).split('::')[-1] == 'into_iter':
+            z = strip(z[2])
+        if isinstance(p, tuple) and p[0] == 'fld' and p[2] == '1' and strip(p[1]) == strip(term[1]) and \
+                isinstance(z, tuple) and z[0] == 'call' and cname(z[1]) == 'Iterator::zip' and len(z) == 4:
+            lb, lad = util.iter_chain(z[2])
+            rb, rad = util.iter_chain(z[3])
+            if all(a in ('iter_mut', 'into_iter') for a in lad) and all(a in ('iter', 'into_iter', 'copied', 'cloned') for a in rad):
+                src = util.loop_source(lb)
+                if src is not None:
+                    base, ad = util.iter_chain(src)
+                    v = base
+                    while isinstance(v, tuple) and (v[0] in ('ref', 'deref') or (v[0] == 'call' and cname(v[1]) in ('DerefMut::deref_mut', 'Deref::deref'))):
+                        v = v[1] if v[0] in ('ref', 'deref') else v[2]
+                    vec = v[1] if isinstance(v, tuple) and v[0] == 'mutb' else None
+                    dom = vec is not None and all(a in ('iter_mut', 'into_iter') for a in ad) and 'iter_mut' in ad
+                    return vec, dom, ('zip', strip(rb))
+        return None, False, None
     if not (isinstance(term, tuple) and term[0] == 'idx'):
         return None, False, None
     j = term[2]
@@ -207,6 +314,24 @@ def _sentinel(ctx, b, m, sref):
             nan = [v for g, v in gs if isinstance(g, tuple) and g[0] == 'call' and cname(g[1]) == 'f64::is_nan' and
                    isinstance(strip(g[2]), tuple) and strip(g[2])[0] == 'idx' and util.const_val(strip(g[2])[2]) == 0 and util.is_param(strip(g[2])[1], 3)]
             if util.is_param(val, 3) and nan == [False]:
+                kinds['prev'] = True
+            elif isinstance(val, tuple) and val[0] == 'call' and 'constraint' in val[1].lower() and nan == [True]:
+                kinds['centres'] = True
+            else:
+                kinds['other:' + show(val, maxdepth=3)] = True
+        ok = set(kinds) == {'prev', 'centres'}
+        found = sorted(kinds)
+    elif isinstance(t, tuple) and t[0] == 'call' and t[1] in ctx.prog.bodies and len(t) == 4 and util.is_param(t[2], 1) and util.is_param(t[3], 3):
+        # the choice may live in a helper fn(&self, &Joints) -> &Joints handed the caller's previous
+        hb = ctx.prog.bodies[t[1]]
+        ctx.fn(hb)
+        kinds = {}
+        for val, d, rb in hb.return_values():
+            val = strip(val)
+            gs = [(strip(g), opw.truth(k)) for g, k, sw in hb.guard_terms(d[1])] if d else []
+            nan = [v for g, v in gs if isinstance(g, tuple) and g[0] == 'call' and cname(g[1]) == 'f64::is_nan' and
+                   isinstance(strip(g[2]), tuple) and strip(g[2])[0] == 'idx' and util.const_val(strip(g[2])[2]) == 0 and util.is_param(strip(g[2])[1], 2)]
+            if util.is_param(val, 2) and nan == [False]:
                 kinds['prev'] = True
             elif isinstance(val, tuple) and val[0] == 'call' and 'constraint' in val[1].lower() and nan == [True]:
                 kinds['centres'] = True
